@@ -30,7 +30,7 @@ def check_validate(ctx, idx, rule="C05.c"):
         if not (whole or rest):
             continue
         body = cfg.reachable([m for m, lab in head.succ if lab == "loop"], avoid={head})
-        tests = [n for n in body if n.kind == "test" and isinstance(n.ast, ast.Compare) and any(isinstance(x, ast.Attribute) and x.attr == "shape" and isinstance(x.value, ast.Name) and x.value.id == tgt.id for x in ast.walk(n.ast))]
+        tests = [n for n in body if n.kind == "test" and isinstance(n.ast, ast.Compare) and any(isinstance(x, ast.Attribute) and x.attr == "shape" and isinstance(x.value, ast.Name) and x.value.id == tgt.id for x in ast.walk(K.expand(fi, n.ast)))]
         for t in tests:
             op = t.ast.ops[0]
             lab = "true" if isinstance(op, ast.NotEq) else "false" if isinstance(op, ast.Eq) else None
